@@ -12,7 +12,7 @@ From Qryn Require Import model.TqSql model.Traceql model.TraceqlPlan model.Trace
      proofs.TraceqlBitsetProofs proofs.TraceqlAnalyzeProofs proofs.TraceqlEvalProofs proofs.TraceqlSelectorProofs
      proofs.TraceqlWfProofs model.TraceqlPortions proofs.TraceqlPortionsProofs
      model.TraceqlCase proofs.TraceqlIndexSearchProofs proofs.TraceqlIndexCorrectProofs proofs.TraceqlGroupedProofs
-     proofs.TraceqlTopkProofs proofs.TraceqlCorrectProofs proofs.TraceqlAggProofs.
+     proofs.TraceqlTopkProofs proofs.TraceqlCorrectProofs proofs.TraceqlAggProofs proofs.TraceqlExamples.
 Import ListNotations.
 Open Scope string_scope.
 
@@ -204,3 +204,19 @@ Theorem traceql_correct_agg : forall re_match parse_float hash64 (c : ctx) (d : 
               /\ result_ok c (traceql_sem re_match parse_float false c d (q2 e ag ao)) res = true.
 Proof. exact TraceqlAggProofs.traceql_correct_agg. Qed.
 Print Assumptions traceql_correct_agg.
+
+(* 14. The guard spans_capped of 12/13 is needed: with every other hypothesis in place, a trace with 101 matching spans is
+   returned with 100 of them (groupArray(100) in IndexGroupByPlanner), which result_ok rejects.  Recorded as the finding
+   span-list-cut-at-100; the witness is corpus/C11 class span-cut, evaluated on the implementation's own statement on every run. *)
+Theorem traceql_correct_single_refuted_without_span_cap :
+  exists (c : ctx) (d : db) (e : attr_exp),
+    rf_max c = 0%Z /\ db_consistent c d /\ keys_ok e = true
+    /\ forallb term_lit_ok (fst (snd (analyze_cond e ([], [])))) = true
+    /\ (List.length (fst (snd (analyze_cond e ([], [])))) <= 64)%nat /\ (cond_depth (fst (analyze_cond e ([], []))) <= 28)%nat
+    /\ lits_exact e = true
+    /\ List.length (spans_of c d) = 101%nat
+    /\ exists s res, plan (q1 e AONone) MSearch c 1 = Ok s /\ index_rows_g re_toy float_toy hash_toy c d s = Some res
+                     /\ map (fun r => List.length (snd r)) res = [100%nat]
+                     /\ result_ok c (traceql_sem re_toy float_toy false c d (q1 e AONone)) res = false.
+Proof. exists c0, d101, e3. exact span_list_cut_witness. Qed.
+Print Assumptions traceql_correct_single_refuted_without_span_cap.
